@@ -422,6 +422,7 @@ func main() {
 
 	results := make([]*ProgResult, len(jobs))
 	genStats := make([]map[string]int, len(jobs))
+	genRejOps := make([][]opLine, len(jobs))
 	nw := runtime.NumCPU()
 	if nw > 16 {
 		nw = 16
@@ -456,6 +457,7 @@ func main() {
 					fmt.Fprintf(os.Stderr, "program #%d done\n", j.idx)
 				}
 				genStats[j.idx] = g.stats
+				genRejOps[j.idx] = g.rejOps
 			}
 		}()
 	}
@@ -563,6 +565,10 @@ func main() {
 		}
 		for _, n := range res.Notes {
 			r.Note(fmt.Sprintf("program #%d (%s): %s", res.Idx, res.Origin, n))
+		}
+		for _, o := range genRejOps[res.Idx] {
+			r.Op(o.op, o.impl)
+			r.Count("corr:reject-ops")
 		}
 		if !res.Accepted {
 			r.Count(kind + ":rejected:" + res.RejClass)
